@@ -506,6 +506,9 @@ pub struct Emitted {
     pub reference: Option<u64>,
     /// Clients that were authorized when the event was emitted.
     pub auth_at_emit: BTreeSet<usize>,
+    /// (client, session) pairs authorized at the first tick after the emission, when a dependent
+    /// event is flushed: whoever was not authorized then never gets it (`None` until that tick).
+    pub auth_at_flush: Option<BTreeSet<(usize, u32)>>,
     /// Clients that could see the referenced entity when the event was emitted.
     pub ref_visible_at_emit: BTreeSet<usize>,
     pub emit_frame: u32,
@@ -863,6 +866,7 @@ impl EvCell {
                     recipients,
                     sender: None,
                     auth_at_emit: (0..x.sim.clients.len()).filter(|&c| x.sim.is_authorized(c)).collect(),
+                    auth_at_flush: None,
                     ref_visible_at_emit: reference
                         .map(|e| (0..x.sim.clients.len()).filter(|&c| x.sim.visible_now(c, e.to_bits())).collect())
                         .unwrap_or_default(),
@@ -924,6 +928,7 @@ impl EvCell {
                     recipients: BTreeSet::new(),
                     sender: Some((c, session, conn.to_bits())),
                     auth_at_emit: BTreeSet::new(),
+                    auth_at_flush: None,
                     ref_visible_at_emit: BTreeSet::new(),
                     reference: server_entity.map(|e| e.to_bits()),
                     emit_frame: x.sim.server_frames,
@@ -1089,6 +1094,16 @@ impl EvCell {
                     )
                     .feat(format!("kind:{kind:?}")));
             }
+            if (self.oracles.c05 || self.oracles.c07) && !kind.independent() && self.cfg.auth != Auth::None {
+                if em.auth_at_flush.as_ref().is_some_and(|a| !a.contains(&(c, session))) {
+                    return Err(self
+                        .v(
+                            "event-predates-authorization",
+                            format!("c{c} observed {kind:?} #{}, which was flushed on a tick at which c{c} was not authorized", o.n),
+                        )
+                        .feat(format!("kind:{kind:?}")));
+                }
+            }
             if self.oracles.c05 {
                 if !em.recipients.contains(&(c, session)) {
                     return Err(self
@@ -1253,6 +1268,13 @@ impl EvCell {
 
     fn server_frame(&self, x: &mut EvExec, tick: bool) -> Result<(), Violation> {
         x.sim.server_frame(tick).map_err(|v| self.own(v))?;
+        if x.sim.last_frame_was_tick {
+            let authorized: BTreeSet<(usize, u32)> =
+                (0..x.sim.clients.len()).filter(|&c| x.sim.is_authorized(c)).map(|c| (c, x.sim.clients[c].session)).collect();
+            for em in x.emitted.iter_mut().filter(|e| e.server_kind.is_some() && e.auth_at_flush.is_none()) {
+                em.auth_at_flush = Some(authorized.clone());
+            }
+        }
         self.scan_server_wire(x)?;
         self.check_server_observations(x)?;
         if self.oracles.c09 {
